@@ -29,9 +29,12 @@ Inductive cop :=
 | OConnect (now : Z) (tgt : string)
 | OConnectError (now : Z) (tgt : string) (msg : string)
 | OUpdateMeta (now : Z)
-| ONop.                                            (* harness-only step (a gated subscriber is held / released): the cache is not called *)
+| ONop                                             (* harness-only step (a gated subscriber is held / released): the cache is not called *)
+| OPair (a b : cop).                               (* [b] was issued from a second goroutine while [a] was parked inside its
+                                                      critical section: must behave as [a] then [b] *)
 
-Inductive rcls := ROk | RStale | RFuture | ROther | RMulti (l : list rcls) | RPanic.
+Inductive rcls := ROk | RStale | RFuture | ROther | RMulti (l : list rcls) | RPanic
+| ROvertook.   (* harness: the second writer of a pair finished while the first was still parked *)
 
 Record cobs := Obs {
   o_res  : rcls;
@@ -50,7 +53,7 @@ Definition STEP (o : cop) (r : rcls) (feed : list notif) (dump : list (string * 
 
 Fixpoint rcls_eqb (a b : rcls) {struct a} : bool :=
   match a, b with
-  | ROk, ROk | RStale, RStale | RFuture, RFuture | ROther, ROther | RPanic, RPanic => true
+  | ROk, ROk | RStale, RStale | RFuture, RFuture | ROther, ROther | RPanic, RPanic | ROvertook, ROvertook => true
   | RMulti x, RMulti y =>
       (fix go (x y : list rcls) {struct x} : bool :=
          match x, y with
@@ -180,12 +183,22 @@ Definition dump_eqb (a b : list dump_entry) : bool :=
 
 Inductive mfeed :=
 | MGroups (gs : list fgroup)     (* in order, group by group *)
-| MBag (l : list notif).         (* order not specified (Go map iteration) *)
+| MBag (l : list notif)          (* order not specified (Go map iteration) *)
+| MSeq (a b : mfeed).            (* first everything of [a], then everything of [b] *)
 
-Definition mfeed_matches (m : mfeed) (feed : list notif) : bool :=
+(** number of (non-meta) feed entries *)
+Fixpoint mfeed_size (m : mfeed) : nat :=
+  match m with
+  | MGroups gs => fold_right (fun g k => (group_size g + k)%nat) 0%nat (flat_map drop_meta_group gs)
+  | MBag l => List.length (filter (fun m => negb (feed_entry_is_meta m)) l)
+  | MSeq a b => (mfeed_size a + mfeed_size b)%nat
+  end.
+
+Fixpoint mfeed_matches (m : mfeed) (feed : list notif) : bool :=
   match m with
   | MGroups gs => feed_matches (flat_map drop_meta_group gs) feed
   | MBag l => bag_eqb (filter (fun m => negb (feed_entry_is_meta m)) l) feed
+  | MSeq a b => mfeed_matches a (firstn (mfeed_size a) feed) && mfeed_matches b (skipn (mfeed_size a) feed)
   end.
 
 Definition opt_panic (o : option N) : rcls := match o with Some _ => RPanic | None => ROk end.
@@ -193,7 +206,14 @@ Definition opt_panic (o : option N) : rcls := match o with Some _ => RPanic | No
 (** calls whose error is only logged return nothing; a panic is still seen *)
 Definition quiet (r : gres) : rcls := match r with GPanic _ => RPanic | _ => ROk end.
 
-Definition mstep (c : cache) (o : cop) : cache * rcls * mfeed :=
+(** result class of a pair: both classes, a panic of either is a panic *)
+Definition pair_cls (a b : rcls) : rcls :=
+  match a, b with
+  | RPanic, _ | _, RPanic => RPanic
+  | _, _ => RMulti [a; b]
+  end.
+
+Fixpoint mstep (c : cache) (o : cop) {struct o} : cache * rcls * mfeed :=
   match o with
   | OUpd now n => let '(c', gs, r) := cache_gnmi_update c now n in (c', rcls_of r, MGroups gs)
   | OReset now tgt => let '(c', l, p) := cache_reset c now tgt in (c', opt_panic p, MBag l)
@@ -205,6 +225,10 @@ Definition mstep (c : cache) (o : cop) : cache * rcls * mfeed :=
       let '(c', gs, r) := cache_connect_error c now tgt msg in (c', quiet r, MGroups gs)
   | OUpdateMeta now => let '(c', l, p) := cache_update_metadata c now in (c', opt_panic p, MBag l)
   | ONop => (c, ROk, MBag [])
+  | OPair a b =>
+      let '(c1, r1, f1) := mstep c a in
+      let '(c2, r2, f2) := mstep c1 b in
+      (c2, pair_cls r1 r2, MSeq f1 f2)
   end.
 
 Definition mdump_all (c : cache) : list dump_entry :=
@@ -363,7 +387,7 @@ Definition snotif (thr now : Z) (st : starget) (n : notif) : starget * option rc
             end)
   end.
 
-Definition sstep (cfg : config) (s : sstate) (o : cop) : sstate * option rcls :=
+Fixpoint sstep (cfg : config) (s : sstate) (o : cop) {struct o} : sstate * option rcls :=
   match o with
   | OUpd now n =>
       match n_prefix n with
@@ -383,6 +407,10 @@ Definition sstep (cfg : config) (s : sstate) (o : cop) : sstate * option rcls :=
       end
   | ORemove _ tgt => (adel tgt s, None)
   | OAdd tgt => (aset tgt (ST [] None) s, None)
+  | OPair a b =>
+      let '(s1, r1) := sstep cfg s a in
+      let '(s2, r2) := sstep cfg s1 b in
+      (s2, match r1, r2 with Some x, Some y => Some (pair_cls x y) | _, _ => None end)
   | _ => (s, None)
   end.
 
